@@ -23,6 +23,7 @@ import (
 
 	"github.com/prometheus/alertmanager/alert"
 	"github.com/prometheus/alertmanager/dispatch"
+	"github.com/prometheus/alertmanager/inhibit"
 	"github.com/prometheus/alertmanager/notify"
 
 	"verif/harness/hx"
@@ -562,6 +563,15 @@ func TestScenarios(t *testing.T) {
 			}
 			dispatch.VerifPoint.Store(&hook)
 			defer dispatch.VerifPoint.Store(nil)
+			// the new inhibitor takes a while over each alert it finds at start-up: a reload that did
+			// not wait for it would answer the API and flush with inhibition missing
+			ihook := func(name string, args ...any) {
+				if name == "initial.alert" && reloading.Load() {
+					time.Sleep(1500 * time.Millisecond)
+				}
+			}
+			inhibit.VerifPoint.Store(&ihook)
+			defer inhibit.VerifPoint.Store(nil)
 			in, err := inst.New(inst.Options{Name: "A", Retention: 120 * time.Hour, AlertGCInterval: 30 * time.Minute,
 				MaintenanceInterval: 30 * time.Second, NflogGCInterval: time.Minute, Log: lg, Windows: windows})
 			if err != nil {
